@@ -25,6 +25,7 @@ CONSTANTS NReqs,        \* set of request counts, subset of {1, 2}
           HeadMs, KaMs, DiscMs,   \* sets of timer values in ms (0 = disabled), multiples of TICK
           Shuts,        \* subset of {"ready", "never"}: what poll_shutdown of the socket does
           Graces,       \* subset of BOOLEAN: a graceful-shutdown signal may fire
+          Errs,         \* subset of BOOLEAN: the handler of request 1 fails (its answer goes through send_error_response)
           HalfClosed, MaxT, KnownSigs,
           DEV_KaRefire, DEV_HeadRefire, DEV_KaRearmsShutdown   \* the two timer defects repaired by fix: commits (FALSE = repaired code)
 TICK == 1000
@@ -37,7 +38,7 @@ vars == <<scn, wire, sock, rbuf, peerEof, signalled, now, flags, headT, kaT, shu
           cur, hp, wbuf, error, result, woken, reg, pc, rs, hist, nresp, obs>>
 
 Scn == [n : NReqs, body : Bodies, pend : Pends, read : Reads, keep : Keeps, head_ms : HeadMs, ka_ms : KaMs, disc_ms : DiscMs,
-        shut : Shuts, grace : Graces]
+        shut : Shuts, grace : Graces, err : Errs]
 
 UnitsOf(s) == <<"Ha", "Hb">> \o (IF s.body THEN <<"B">> ELSE <<>>) \o (IF s.n = 2 THEN <<"H2">> ELSE <<>>)
 GtOf(s) ==
